@@ -379,7 +379,7 @@ def c18(res, rng, tier):
     hlines = ["dec %s %s 5 %s" % ("1" if k % 2 else "0", l.split()[2], l.split()[-1]) for k, l in enumerate(dlines)]
     himpl = C.implrun(hlines)
     hmodel = C.modelrun(hlines)
-    hpred = C.modelrun(["normh %d %s %s" % (emeta[j][1], emeta[j][2], E.tokens(emeta[j][0])) for j in dmeta], env=LAST_ENV.get("C18"))
+    hpred = C.modelrun(["norm2h %d %s %s %s" % (emeta[j][1], "1" if k % 2 else "0", emeta[j][2], E.tokens(emeta[j][0])) for k, j in enumerate(dmeta)], env=LAST_ENV.get("C18"))
     in_fragment = 0
     for k, ho in enumerate(himpl):
         j = dmeta[k]
@@ -387,13 +387,14 @@ def c18(res, rng, tier):
             res.violation("correspondence: model and implementation differ when decoding Encode's output with the registry hook",
                           {"kind": "correspondence", "case": elines[j][:600], "dec": hlines[k][:600], "model": hmodel[k][:500], "impl": ho[:500]}, found_input=False)
             continue
-        if hpred[k] == "NA":
+        if hpred[k] == "NA" or hpred[k] == "ok TOOBIG":
             continue
         in_fragment += 1
         got = parts(ho.partition(" #log ")[0])[0]
-        if got != hpred[k]:
+        pj = emeta[j][1]
+        if got != hpred[k] and not (got.startswith("ok ") and nan_class(got[3:], pj) == nan_class(hpred[k][3:], pj)):
             res.violation("theorem C18_registry_hook predicts %s, Decode(Encode(v)) with the registry hook gives %s" % (hpred[k][:200], got[:200]),
-                          {"kind": "correspondence", "theorem": "Props/C18.v C18_registry_hook / Norm.hmap", "case": elines[j][:800],
+                          {"kind": "correspondence", "theorem": "Props/C18.v C18_registry_hook / C18_inverse_hooks_with_maps / NormMaps.norm2", "case": elines[j][:800],
                            "dec": hlines[k][:800], "predicted": hpred[k][:600], "impl": ho[:600]})
         else:
             nontriv += 1
